@@ -1,0 +1,6 @@
+//go:build verif
+
+package geyser
+
+// VerifJavaCompatibleUsername exposes javaCompatibleUsername to the verification harness (C40).
+func VerifJavaCompatibleUsername(name string) string { return javaCompatibleUsername(name) }
